@@ -2,6 +2,8 @@ package verifsim
 
 import (
 	"fmt"
+
+	"github.com/invopop/gobl/dsig"
 	"strings"
 	"time"
 )
@@ -168,6 +170,12 @@ func planC09life(c *Ctx, run int64) *Plan {
 			mk(Op{K: "present"})
 		}
 	}
+	if Chance(r, 0.15) {
+		// the co-signature attack: modify, recalculate, let another party sign and put it first
+		mk(Op{K: "edit", S: "qty", S2: "9"})
+		mk(Op{K: "calc"})
+		mk(Op{K: "cosign-prepend"})
+	}
 	if Chance(r, 0.5) {
 		mk(Op{K: "crash"})
 	}
@@ -204,6 +212,20 @@ func execC09(x *X) {
 			}
 			s.m.sigs = append(s.m.sigs, sigRec{key: int(op.I), snap: snap, real: true})
 			modifiedAfterSign, restartedAfterSign = false, false
+		case "cosign-prepend":
+			if len(s.m.sigs) != 1 || len(s.env.Signatures) != 1 {
+				note = "noop"
+				break
+			}
+			otherKey := (s.m.sigs[0].key + 1) % len(keyJWK)
+			snap := snapHeader(s.env.Head)
+			sig, err := PrivKey(otherKey).Sign(s.env.Head)
+			if err != nil {
+				note = "sign-error"
+				break
+			}
+			s.env.Signatures = append([]*dsig.Signature{sig}, s.env.Signatures...)
+			s.m.sigs = append([]sigRec{{key: otherKey, snap: snap, real: true}}, s.m.sigs...)
 		case "unsign":
 			s.env.Unsign()
 			s.m.sigs = nil
@@ -264,6 +286,25 @@ func execC09(x *X) {
 }
 
 func c09present(x *X, s *lifeSlot, chunk int, hist string, modified, restarted bool) {
+	if len(s.m.sigs) == 2 && s.m.sigs[0].key != s.m.sigs[1].key {
+		// a second party signed the current header and put its signature FIRST. The original
+		// signer's key must not verify content it did not sign, on any path.
+		orig := s.m.sigs[1]
+		cur := snapHeader(s.env.Head)
+		if ok, field := cur.covers(orig.snap); !ok {
+			for _, ep := range verifyEPs {
+				ok2, detail, panicked := verifyVia(x, ep, s.env, orig.key, chunk)
+				x.Case(H([]byte(hist)) + "|" + ep + "|cosigned")
+				x.Probe("cosigned-envelope-presented")
+				if panicked {
+					x.Violate("verify-panic:"+ep, "entry point %s panicked: %s\n  history: %s", ep, detail, hist)
+				} else if ok2 {
+					x.Violate("accepts-unsigned-content:"+ep+":cosigned", "entry point %s reported success for the original signer's key although the signed %s differs: another party's signature of the new header was placed before the original one\n  history: %s", ep, field, hist)
+				}
+			}
+		}
+		return
+	}
 	if len(s.m.sigs) != 1 {
 		// unsigned: every path must refuse
 		if len(s.m.sigs) == 0 {
@@ -290,12 +331,17 @@ func c09present(x *X, s *lifeSlot, chunk int, hist string, modified, restarted b
 	}
 	for _, ep := range verifyEPs {
 		impostor := 100 + other*10 + sg.key
-		for _, key := range []int{sg.key, other, -1, impostor} {
+		otherNoKid := 200 + other
+		nilKey := 300
+		for _, key := range []int{sg.key, other, -1, impostor, otherNoKid, nilKey} {
+			if key == nilKey && !(ep == epLib || ep == epLibSig) {
+				continue // a nil key on the CLI paths is the "no key" case
+			}
 			isLib := ep == epLib || ep == epLibSig
 			// expectation
 			exp := "" // "ok", "fail" or "" (not asserted)
 			switch {
-			case key == other || key == impostor:
+			case key == other || key == impostor || key == otherNoKid || key == nilKey:
 				exp = "fail"
 			case key == -1 && !isLib:
 				exp = "fail" // the CLI paths require a key
@@ -309,7 +355,7 @@ func c09present(x *X, s *lifeSlot, chunk int, hist string, modified, restarted b
 				exp = "ok"
 			}
 			ok, detail, panicked := verifyVia(x, ep, s.env, key, chunk)
-			keyName := map[int]string{sg.key: "signer", other: "other", -1: "none", impostor: "impostor-with-signers-kid"}[key]
+			keyName := map[int]string{sg.key: "signer", other: "other", -1: "none", impostor: "impostor-with-signers-kid", otherNoKid: "other-without-kid", nilKey: "nil-key"}[key]
 			x.Case(H([]byte(hist)) + "|" + ep + "|" + keyName)
 			if modified {
 				x.R.Nontrivial = true
@@ -323,7 +369,7 @@ func c09present(x *X, s *lifeSlot, chunk int, hist string, modified, restarted b
 				x.Violate("rejects-signed:"+ep+":"+keyName, "entry point %s with the %s key refused an envelope whose header still contains everything that was signed and which validates: %s\n  history: %s", ep, keyName, detail, hist)
 			case exp == "fail" && ok:
 				reason := "key=" + keyName
-				if key != other && key != impostor && !(key == -1 && !isLib) {
+				if key != other && key != impostor && key != otherNoKid && key != nilKey && !(key == -1 && !isLib) {
 					if !covers {
 						reason = "signed " + field + " differs"
 					} else {
@@ -337,7 +383,7 @@ func c09present(x *X, s *lifeSlot, chunk int, hist string, modified, restarted b
 			}
 			if exp == "fail" && !ok {
 				switch {
-				case key == other || key == impostor:
+				case key == other || key == impostor || key == otherNoKid || key == nilKey:
 					x.Probe("must-fail-wrong-key")
 				case !covers && field == "digest":
 					x.Probe("must-fail-digest-after-recalc")
